@@ -530,6 +530,8 @@ class IrToPythonCompiler:
                 value = "math.inf"
             else:
                 value = "-math.inf"
+        elif math.isnan(ins.value):
+            value = "math.nan"
         else:
             value = str(ins.value)
         self.emit(f"{ins.name} = {value}")
